@@ -222,35 +222,37 @@ func init() {
 
 	// ---- environment
 	regFn("vh/vf.Env", func(e *Exec, fn *ssa.Function, a []Value) Value {
-		res := fn.Signature.Results()
-		kt := res.At(0).Type()
-		st := kt.Underlying().(*types.Struct)
-		k := &StructVal{Fields: make([]Value, st.NumFields())}
 		env := &EnvModel{Store: &StoreModel{}, Params: map[string]Value{}}
 		env.Supply = e.nonneg("supply")
-		for i := 0; i < st.NumFields(); i++ {
-			f := st.Field(i)
-			switch f.Name() {
-			case "storeKey":
-				k.Fields[i] = IfaceVal{T: f.Type(), V: ModelVal{Kind: "storekey", Obj: env}}
+		e.env = env
+		// the keeper is built by the real constructor (keeper.NewKeeper) over model dependencies
+		kpkg := e.prog.ImportedPackage("github.com/irismod/service/keeper")
+		nk := kpkg.Func("NewKeeper")
+		ps := nk.Signature.Params()
+		args := make([]Value, ps.Len())
+		for i := 0; i < ps.Len(); i++ {
+			p := ps.At(i)
+			switch p.Name() {
 			case "cdc":
-				k.Fields[i] = IfaceVal{T: f.Type(), V: ModelVal{Kind: "codec"}}
+				args[i] = IfaceVal{T: p.Type(), V: ModelVal{Kind: "codec"}}
+			case "key":
+				args[i] = IfaceVal{T: p.Type(), V: ModelVal{Kind: "storekey", Obj: env}}
+			case "accountKeeper":
+				args[i] = IfaceVal{T: p.Type(), V: ModelVal{Kind: "accountKeeper", Obj: env}}
+			case "bankKeeper":
+				args[i] = IfaceVal{T: p.Type(), V: ModelVal{Kind: "bankKeeper", Obj: env}}
 			case "tokenKeeper":
-				mt := e.prog.ImportedPackage("github.com/irismod/service/keeper").Type("MockTokenKeeper").Type()
-				k.Fields[i] = IfaceVal{T: mt, V: e.zero(mt)}
-			case "bankKeeper", "accountKeeper":
-				k.Fields[i] = IfaceVal{T: f.Type(), V: ModelVal{Kind: f.Name(), Obj: env}}
+				mt := kpkg.Type("MockTokenKeeper").Type()
+				args[i] = IfaceVal{T: mt, V: e.zero(mt)}
 			case "paramSpace":
-				k.Fields[i] = ModelVal{Kind: "params", Obj: env}
-			case "respCallbacks", "stateCallbacks", "moduleServices":
-				k.Fields[i] = MapRef{M: &MapVal{}}
+				args[i] = ModelVal{Kind: "params", Obj: env}
 			case "feeCollectorName":
-				k.Fields[i] = e.constStr("fee_collector")
+				args[i] = e.constStr("fee_collector")
 			default:
-				k.Fields[i] = e.zero(f.Type())
+				panic(abort{"keeper.NewKeeper has a parameter the harness environment does not know: " + p.Name()})
 			}
 		}
-		e.env = env
+		k := e.Call(nk, args, nil)
 		em := e.Call(e.prog.ImportedPackage("github.com/cosmos/cosmos-sdk/types").Func("NewEventManager"), nil, nil)
 		ctx := ModelVal{Kind: "ctx", Obj: &CtxModel{Env: env, Height: e.tt.BV(64, 1), Time: TimeVal{NS: e.tt.Int64(0)}, EvMgr: em}}
 		return TupleVal{k, ctx}
